@@ -152,6 +152,7 @@ fn check_graph_sems(name: &str, g: &Graph, cfg_base: &ExploreCfg, sems: &[Sem]) 
                                     case: case_json(name, g, Presentation::Compact, &q, "choicesat", cfg.fv, &e.choices),
                                 };
                                 if e.call_limit_hit || calls > bound {
+                                    cfg.stop.set(true);
                                     local.push(mk("symptom=bound_exceeded", format!("{} SAT calls (aborted beyond bound+1), bound {}", calls, bound)));
                                 } else if let Err(p) = e.result {
                                     local.push(mk("symptom=panic", format!("panicked: {}", p)));
